@@ -301,7 +301,8 @@ Definition SrcOK (lgk : N) (arrf : bool) (cs : list N) (s : hsketch) : Prop :=
   | MSet st t => arrf = false /\ 8 <= lgk /\ 5 <= hs_lg st /\ hs_lg st <= lgk - 3 /\ SetRep (hs_lg st) st cs /\
                  8 <= hs_len st /\ 4 * hs_len st <= 3 * 2 ^ hs_lg st
   | MArr4 a => arrf = true /\ Inv4 lgk (spec_regs lgk cs) a /\ 0 < a4_num a
-  | MArr6 a => arrf = true /\ a6_lgk a = lgk /\ (forall j, a6_get a j = spec_regs lgk cs j) /\ a6_nz a = spec_zeros lgk cs
+  | MArr6 a => arrf = true /\ a6_lgk a = lgk /\ WFb (a6_bytes a) /\ (forall j, j < 2 ^ lgk -> a6_get a j = spec_regs lgk cs j) /\
+               a6_nz a = spec_zeros lgk cs
   | MArr8 a => arrf = true /\ a8_lgk a = lgk /\ (forall j, a8_get a j = spec_regs lgk cs j) /\ a8_nz a = spec_zeros lgk cs
   end.
 
@@ -321,7 +322,7 @@ Proof.
   - destruct Hm; discriminate.
   - destruct Hm as (_ & HI & _). pose proof HI as (Hk4 & _). rewrite Hk4.
     apply (a4_value_list_regs lgk); [assumption|]. intros j Hj. now apply Nseq_range_In.
-  - destruct Hm as (_ & Hk6 & Hr & _). rewrite Hk6. f_equal. apply map_ext. intros j. apply Hr.
+  - destruct Hm as (_ & Hk6 & _ & Hr & _). rewrite Hk6. f_equal. apply map_ext_in. intros j Hj. apply Hr. now apply Nseq_range_In.
   - destruct Hm as (_ & Hk8 & Hr & _). unfold a8_values. rewrite Hk8. f_equal. apply map_ext. intros j. apply Hr.
 Qed.
 
@@ -357,7 +358,7 @@ Proof.
       { intros j Hj. pose proof (core4_ge lgk _ _ _ _ j HC Hj) as H. cbn [spec_regs] in H. lia. }
       pose proof (Hz 0 (pow2_pos lgk)) as E0. rewrite Hn, E0.
       rewrite count_regs_all by (intros; reflexivity). rewrite N.eqb_refl. reflexivity.
-  - destruct Hm as (_ & Hk6 & _ & Hz). rewrite Hk6, Hz. split.
+  - destruct Hm as (_ & Hk6 & _ & _ & Hz). rewrite Hk6, Hz. split.
     + intros H. apply (zeros_full_no_coupon lgk); [assumption|lia].
     + intros ->. rewrite spec_zeros_nil. lia.
   - destruct Hm as (_ & Hk8 & _ & Hz). rewrite Hk8, Hz. split.
@@ -412,7 +413,9 @@ Proof.
         split; [now rewrite app_nil_r|]. split; [rewrite app_nil_r; apply req_refl|]. intros; reflexivity. }
     destruct Hcopy as (r & fed & Hr & HR & Hfv & Hreq & Hooo8). rewrite Hr. cbn [obind].
     eexists. exists fed. split; [reflexivity|]. split; [|split; [assumption|split; [assumption|]]].
-    + destruct (h_ooo se); [apply rebuild_est_R8|]; now apply set_hip_R8.
+    + assert (HR2 : R8 slg fed (if h_ooo (a8_est r) then r else a8_set_hip_accum (h_accum se) r))
+        by (destruct (h_ooo (a8_est r)); [assumption|now apply set_hip_R8]).
+      destruct (h_ooo se); [apply rebuild_est_R8|]; assumption.
     + intros se' Hse' Ho. assert (se' = se) by congruence. subst se'. rewrite Ho. reflexivity.
   - replace (N.min slg tgt) with tgt by lia. unfold merge_array_with_downsample.
     replace (tgt <? slg) with true by lia. rewrite Hvals. cbn [obind].
@@ -875,8 +878,8 @@ Proof.
       eexists. split; [reflexivity|]. cbn [sk_mode sk_lgk]. split; [reflexivity|].
       split; [|split; [reflexivity|split; [reflexivity|]]].
       * unfold SrcOK. cbn [sk_mode sk_lgk]. split; [reflexivity|]. split; [assumption|]. split; [assumption|].
-        split; [reflexivity|]. unfold a6_get in *. cbn [a6_lgk a6_bytes a6_nz]. split; [assumption|]. split.
-        -- intros j. rewrite Hr6. apply Hcrq.
+        split; [reflexivity|]. unfold a6_get in *. cbn [a6_lgk a6_bytes a6_nz]. split; [assumption|]. split; [assumption|]. split.
+        -- intros j Hj. rewrite Hr6 by assumption. apply Hcrq.
         -- rewrite Hz6. now apply req_zeros.
       * cbn [a6_est a6_nz]. rewrite Hz6, Hz8. do 2 f_equal. apply req_zeros. apply canon_req. lia.
     + (* Hll8: the gadget itself *)
@@ -1073,7 +1076,7 @@ Proof.
     now apply (set_card (hs_lg st)).
   - destruct Hm as (-> & HI & _). split; [split; reflexivity|]. split; [|discriminate]. intros _ j Hj.
     apply (a4_get_regs hip (fun _ _ _ x => x) lgk _ a j HI Hj).
-  - destruct Hm as (-> & _ & Hr & _). split; [split; reflexivity|]. split; [|discriminate]. intros _ j _. now rewrite Hr.
+  - destruct Hm as (-> & _ & _ & Hr & _). split; [split; reflexivity|]. split; [|discriminate]. intros _ j Hj. now rewrite Hr.
   - destruct Hm as (-> & _ & Hr & _). split; [split; reflexivity|]. split; [|discriminate]. intros _ j _. now rewrite Hr.
 Qed.
 
@@ -1192,8 +1195,8 @@ Proof.
     destruct t, m; cbn [RepT] in HR; try contradiction; cbn [tag_flag].
     + destruct HR as (HI & Hpos & _). split; [reflexivity|]. split; [assumption|]. split; [assumption|]. split; [reflexivity|].
       split; [|assumption]. apply (inv4_ext hip lgk (spec_regs lgk fed)); [intros j _; apply Hrq|assumption].
-    + destruct HR as (Hk & _ & Hr & Hz & _). split; [reflexivity|]. split; [assumption|]. split; [assumption|]. split; [reflexivity|].
-      split; [assumption|]. split; [intros j; rewrite Hr; apply Hrq|rewrite Hz; now apply req_zeros].
+    + destruct HR as (Hk & W & Hr & Hz & _). split; [reflexivity|]. split; [assumption|]. split; [assumption|]. split; [reflexivity|].
+      split; [assumption|]. split; [assumption|]. split; [intros j Hj; rewrite Hr by assumption; apply Hrq|rewrite Hz; now apply req_zeros].
     + destruct HR as (Hk & Hr & Hz & _). split; [reflexivity|]. split; [assumption|]. split; [assumption|]. split; [reflexivity|].
       split; [assumption|]. split; [intros j; rewrite Hr; apply Hrq|rewrite Hz; now apply req_zeros].
 Qed.
@@ -1208,8 +1211,130 @@ Proof.
     split; [assumption|]. split; [assumption|]. split; [assumption|]. intros c. rewrite (R4 c). apply Hss.
   - destruct Hm as (E & HI & Hpos). split; [assumption|]. split; [|assumption].
     apply (inv4_ext hip lgk (spec_regs lgk cs)); [intros j _; apply Hrq|assumption].
-  - destruct Hm as (E & Hk6 & Hr & Hz). repeat (split; [assumption|]). split; [intros j; rewrite Hr; apply Hrq|rewrite Hz; now apply req_zeros].
+  - destruct Hm as (E & Hk6 & W & Hr & Hz). split; [assumption|]. split; [assumption|]. split; [assumption|].
+    split; [intros j Hj; rewrite Hr by assumption; apply Hrq|rewrite Hz; now apply req_zeros].
   - destruct Hm as (E & Hk8 & Hr & Hz). repeat (split; [assumption|]). split; [intros j; rewrite Hr; apply Hrq|rewrite Hz; now apply req_zeros].
+Qed.
+
+(* ---------- a well-formed source under further updates ----------
+   Every SrcOK sketch (built in-process, produced by to_sketch, or accepted by the reader and
+   canonical: see HllCodecProofs.wf_src_ok) is in the lock-step invariant of C02 with an Hll8 twin,
+   so everything proved there about update steps applies to it, not only to fresh sketches. *)
+Lemma src_sim : forall (ao : N -> list N -> Prop) lgk arrf cs s, SrcOK lgk arrf cs s -> (arrf = true -> ao lgk cs) ->
+  exists s8, Sim hip ao lgk (sk_tgt s) cs s s8.
+Proof.
+  intros ao lgk arrf cs [k m] (Hk & Hlg & Hv & Hm) Hao. cbn [sk_lgk sk_mode] in *. subst k. unfold sk_tgt. cbn [sk_mode].
+  assert (Htw : forall e : hip, exists a8 : arr8 hip, Rep8 lgk cs a8 e).
+  { intros e. set (vals := map (spec_regs lgk cs) (Nseq 0 (N.to_nat (2 ^ lgk)))).
+    pose proof (rep8_fold hip hip_update lgk (canon 0 vals) [] _ _ (new_R8 lgk)) as H. rewrite app_nil_r in H.
+    destruct H as (A & B & C & _).
+    set (x := fold_left (a8_update hip_update) (canon 0 vals) (a8_new lgk (hip_new lgk))) in *.
+    assert (Hrq : req lgk (rev (canon 0 vals)) cs) by (apply canon_req; lia).
+    exists (mkA8 (a8_lgk x) (a8_bytes x) (a8_nz x) e). unfold Rep8, a8_get in *. cbn [a8_lgk a8_bytes a8_nz a8_est].
+    split; [assumption|]. split; [intros j; rewrite B; apply Hrq|]. split; [rewrite C; now apply req_zeros|reflexivity]. }
+  destruct m as [l t|st t|a|a|a].
+  - destruct Hm as (_ & ds & HL & Hlen & Hss). exists (mkSketch lgk (MList l T8)). now apply (SimList hip ao lgk t cs l ds).
+  - destruct Hm as (_ & A & B & C & D & F & G). exists (mkSketch lgk (MSet st T8)). now apply SimSet.
+  - destruct Hm as (E & HI & Hpos). destruct (Htw (a4_est a)) as (a8 & H8). exists (mkSketch lgk (MArr8 a8)).
+    apply (SimArr hip ao lgk T4 cs cs (a4_est a) (MArr4 a) (MArr8 a8)); [intros c; tauto|assumption|now apply Hao| |exact H8].
+    cbn [RepT]. split; [assumption|]. split; [assumption|reflexivity].
+  - destruct Hm as (E & Hk6 & W & Hr & Hz). destruct (Htw (a6_est a)) as (a8 & H8). exists (mkSketch lgk (MArr8 a8)).
+    apply (SimArr hip ao lgk T6 cs cs (a6_est a) (MArr6 a) (MArr8 a8)); [intros c; tauto|assumption|now apply Hao| |exact H8].
+    cbn [RepT]. split; [assumption|]. split; [assumption|]. split; [assumption|]. split; [assumption|reflexivity].
+  - destruct Hm as (E & Hk8 & Hr & Hz). exists (mkSketch lgk (MArr8 a)).
+    assert (H8 : Rep8 lgk cs a (a8_est a)) by (split; [assumption|]; split; [assumption|]; split; [assumption|reflexivity]).
+    apply (SimArr hip ao lgk T8 cs cs (a8_est a) (MArr8 a) (MArr8 a)); [intros c; tauto|assumption|now apply Hao|exact H8|exact H8].
+Qed.
+
+Lemma sim_tgt : forall (ao : N -> list N -> Prop) lgk t seen (s s8 : hsketch), Sim hip ao lgk t seen s s8 -> sk_tgt s = t /\ sk_lgk s = lgk.
+Proof.
+  intros ao lgk t seen s s8 HS. destruct HS as [l ds|st|fed e m m8 Hf Hfv Ha HR HR8]; unfold sk_tgt; cbn [sk_mode sk_lgk];
+    try (split; reflexivity).
+  destruct t, m; cbn [RepT] in HR; try contradiction; split; reflexivity.
+Qed.
+
+Lemma update_all_array_tag : forall us (s s' : hsketch), sk_tag s = TagArray ->
+  update_all hip_new hip_update hip_carry us s = Ok s' -> sk_tag s' = TagArray.
+Proof.
+  induction us as [|c r IH]; intros s s' Ht Hr; cbn [update_all] in Hr; [inversion Hr; subst; assumption|].
+  destruct (update_with_coupon hip_new hip_update hip_carry s c) as [s1| |] eqn:E; cbn [obind] in Hr; try discriminate.
+  apply (IH s1 s'); [|assumption]. unfold update_with_coupon in E. unfold sk_tag in *.
+  destruct (sk_mode s) as [l t|st t|a|a|a]; try discriminate.
+  - destruct (a4_update hip_update a c); cbn [obind] in E; inversion E. reflexivity.
+  - inversion E. reflexivity.
+  - inversion E. reflexivity.
+Qed.
+
+(* the update step on ANY well-formed source: never stuck, the result is again a well-formed source
+   of the same lg_k and target type, representing the old coupons plus the new ones *)
+Theorem src_updates : forall lgk arrf cs s us, SrcOK lgk arrf cs s -> Forall valid us ->
+  exists s', update_all hip_new hip_update hip_carry us s = Ok s' /\
+    SrcOK lgk (tag_flag (sk_tag s')) (rev us ++ cs) s' /\ sk_tgt s' = sk_tgt s /\
+    (arrf = true -> sk_tag s' = TagArray).
+Proof.
+  intros lgk arrf cs s us HS Hus. pose proof HS as (Hk & Hlg & Hv & Hm).
+  destruct (src_sim TT lgk arrf cs s HS (fun _ => I)) as (s8 & HSim).
+  destruct (sim_run hip hip_new hip_update hip_carry TT TT_cons TT_cond lgk (sk_tgt s) us cs s s8 Hlg Hus Hv HSim)
+    as (s' & s8' & Hr & _ & HS').
+  exists s'. split; [assumption|]. split; [|split].
+  - apply (sim_src_ok TT lgk (sk_tgt s) _ s' s8'); [assumption| |assumption].
+    apply Forall_app. split; [now apply Forall_rev|assumption].
+  - apply (sim_tgt TT lgk _ _ s' s8' HS').
+  - intros ->. apply (update_all_array_tag us s s'); [|assumption].
+    unfold sk_tag. destruct (sk_mode s); try reflexivity; destruct Hm; discriminate.
+Qed.
+
+(* a list- or set-mode source (e.g. a deserialized one) after further updates shows exactly the
+   Spec state of "its coupons, then the new ones": mode tag by the distinct count, coupon set or
+   register file -- the statement C02 proves for a sketch built from scratch *)
+Theorem src_updates_abs : forall lgk cs s us, SrcOK lgk false cs s -> Forall valid us ->
+  exists s', update_all hip_new hip_update hip_carry us s = Ok s' /\ hll_abs_ok lgk (sk_tgt s) (rev us ++ cs) s'.
+Proof.
+  intros lgk cs s us HS Hus. pose proof HS as (Hk & Hlg & Hv & Hm).
+  destruct (src_sim AC lgk false cs s HS ltac:(discriminate)) as (s8 & HSim).
+  destruct (sim_run hip hip_new hip_update hip_carry AC AC_cons AC_cond lgk (sk_tgt s) us cs s s8 Hlg Hus Hv HSim)
+    as (s' & s8' & Hr & _ & HS').
+  exists s'. split; [assumption|]. now apply (sim_abs hip lgk (sk_tgt s) _ s' s8').
+Qed.
+
+(* an array-mode source after further updates: still an array of the same type whose registers are
+   the Spec registers of its coupons plus the new ones *)
+Theorem src_updates_arr : forall lgk cs s us, SrcOK lgk true cs s -> Forall valid us ->
+  exists s', update_all hip_new hip_update hip_carry us s = Ok s' /\ sk_lgk s' = lgk /\ sk_tgt s' = sk_tgt s /\
+    sk_tag s' = TagArray /\ forall j, j < 2 ^ lgk -> sk_reg s' j = Ok (spec_regs lgk (rev us ++ cs) j).
+Proof.
+  intros lgk cs s us HS Hus. destruct (src_updates lgk true cs s us HS Hus) as (s' & Hr & HS' & Ht & Harr).
+  exists s'. split; [assumption|]. rewrite (Harr eq_refl) in HS'. cbn [tag_flag] in HS'.
+  destruct (src_shows lgk true _ s' HS') as (A & _ & C & _).
+  split; [assumption|]. split; [assumption|]. split; [now apply Harr|]. now apply C.
+Qed.
+
+(* two well-formed sources of the same coupon list (an original and its deserialized copy, or two
+   images of one abstract state) stay indistinguishable under the same further updates *)
+Theorem src_updates_agree : forall lgk arrf cs s1 s2 us, SrcOK lgk arrf cs s1 -> SrcOK lgk arrf cs s2 -> Forall valid us ->
+  exists r1 r2, update_all hip_new hip_update hip_carry us s1 = Ok r1 /\ update_all hip_new hip_update hip_carry us s2 = Ok r2 /\
+    sk_lgk r1 = sk_lgk r2 /\ sk_tag r1 = sk_tag r2 /\ sk_len r1 = sk_len r2 /\
+    (forall c, In c (sk_coupons r1) <-> In c (sk_coupons r2)) /\
+    (forall j, j < 2 ^ lgk -> sk_reg r1 j = sk_reg r2 j).
+Proof.
+  intros lgk arrf cs s1 s2 us H1 H2 Hus. destruct arrf.
+  - destruct (src_updates_arr lgk cs s1 us H1 Hus) as (r1 & Hr1 & K1 & _ & T1 & R1).
+    destruct (src_updates_arr lgk cs s2 us H2 Hus) as (r2 & Hr2 & K2 & _ & T2 & R2).
+    exists r1, r2. split; [assumption|]. split; [assumption|]. split; [congruence|]. split; [congruence|].
+    unfold sk_tag, sk_len, sk_coupons in *. destruct (sk_mode r1); try discriminate; destruct (sk_mode r2); try discriminate;
+      (split; [reflexivity|]; split; [tauto|]; intros j Hj; now rewrite (R1 j Hj), (R2 j Hj)).
+  - destruct (src_updates_abs lgk cs s1 us H1 Hus) as (r1 & Hr1 & K1 & _ & T1 & B1).
+    destruct (src_updates_abs lgk cs s2 us H2 Hus) as (r2 & Hr2 & K2 & _ & T2 & B2).
+    exists r1, r2. split; [assumption|]. split; [assumption|]. split; [congruence|]. split; [congruence|].
+    rewrite T1 in B1. rewrite T2 in B2. destruct (spec_mode lgk (distinct (rev us ++ cs))) eqn:Em.
+    + destruct B1 as (_ & C1 & L1), B2 as (_ & C2 & L2). split; [congruence|]. split; [intros c; rewrite (C1 c), (C2 c); tauto|].
+      intros j _. unfold sk_tag, sk_reg in *. destruct (sk_mode r1); try discriminate; destruct (sk_mode r2); try discriminate; reflexivity.
+    + destruct B1 as (_ & C1 & L1), B2 as (_ & C2 & L2). split; [congruence|]. split; [intros c; rewrite (C1 c), (C2 c); tauto|].
+      intros j _. unfold sk_tag, sk_reg in *. destruct (sk_mode r1); try discriminate; destruct (sk_mode r2); try discriminate; reflexivity.
+    + split.
+      * unfold sk_tag, sk_len in *. destruct (sk_mode r1); try discriminate; destruct (sk_mode r2); try discriminate; reflexivity.
+      * split; [unfold sk_tag, sk_coupons in *; destruct (sk_mode r1); try discriminate; destruct (sk_mode r2); try discriminate; tauto|].
+        intros j Hj. now rewrite (B1 j Hj), (B2 j Hj).
 Qed.
 
 (* a sketch built by HllSketch::new + updates represents its own stream *)
